@@ -73,6 +73,32 @@ func parseBad(src []byte) ([]uint16, error) {
 	return out, nil
 }
 
+// seeded: the guard compares count+1 computed in uint32 (0 for count = 0xFFFFFFFF) while the make is sized by count
+func parseWrapBad(src []byte) ([][]byte, error) {
+	if len(src) < 4 {
+		return nil, errors.New("EOF")
+	}
+	count := binary.BigEndian.Uint32(src)
+	need := int(count+1) * 2
+	if len(src) < need {
+		return nil, errors.New("EOF")
+	}
+	return make([][]byte, count), nil
+}
+
+// clean: the same wrapped value sizes the allocation
+func parseWrapGood(src []byte) ([]uint16, error) {
+	if len(src) < 4 {
+		return nil, errors.New("EOF")
+	}
+	count := binary.BigEndian.Uint32(src)
+	n := int(count + 1)
+	if len(src) < 4+n*2 {
+		return nil, errors.New("EOF")
+	}
+	return make([]uint16, n), nil
+}
+
 // ---- R-COUNT ----
 
 func parseN(src []byte, count int) ([]uint16, error) {
